@@ -273,6 +273,24 @@ type InlineStringerMap struct {
 // StringerValues are the dynamic types Stringer positions draw from.
 var StringerValues = []reflect.Type{reflect.TypeOf(Str("")), reflect.TypeOf(&StrBox{})}
 
+// InlineCarrier is an object (so it may sit in an inline interface field)
+// whose fields are slices and arrays without typed fast path; InlineThenPlain
+// uses the same slice types again outside of the inline field.
+type InlineCarrier struct {
+	Items []Plain
+	L     []interface{}
+	A     [2]int
+	N     NamedInts
+}
+
+type InlineThenPlain struct {
+	X     interface{} `struct:",inline"`
+	Items []Plain
+	L     []interface{}
+	A     [2]int
+	Again interface{}
+}
+
 // nested inline interfaces
 type InlineOuter struct {
 	A int
@@ -381,6 +399,7 @@ var FoldOnly = []reflect.Type{
 	reflect.TypeOf([]interface{}{}), reflect.TypeOf(map[string]interface{}{}),
 	reflect.TypeOf(WithZeroers2{}), reflect.TypeOf(ZeroStr("")), reflect.TypeOf(ZeroSet(nil)), reflect.TypeOf(WithFolderIface{}),
 	reflect.TypeOf(InlineOuter{}), reflect.TypeOf(InlineInner{}),
+	reflect.TypeOf(InlineThenPlain{}), reflect.TypeOf([]InlineThenPlain{}),
 	reflect.TypeOf(WithIfaceMaps{}), reflect.TypeOf(InlineStringerMap{}), reflect.TypeOf(map[string]Stringer{}), reflect.TypeOf([]Folderer{}),
 }
 
